@@ -331,6 +331,8 @@ static void random_case(long long c)
 	vh_case_key(key);
 	vh_case_replay("--extra rand --only-case %lld", c);
 	int nops = 3 * depth + (int)vh_below(&r, (uint32_t)(17 * depth + 1));
+	if (vh_below(&r, 6) == 0)
+		nops = 1200 + (int)vh_below(&r, 800); /* long enough for any 8-bit index or counter to wrap */
 	int bias = (int)vh_below(&r, 3); /* 0: keep it nearly full, 1: nearly empty, 2: balanced */
 	for (int i = 0; i < nops && !failed; i++) {
 		uint32_t x = vh_below(&r, 100);
@@ -347,6 +349,8 @@ static void random_case(long long c)
 	VH_COUNT("random_histories");
 	if (flags & F_WRAPPED)
 		VH_COUNT("histories_wrapping_the_slot_index");
+	if (serial > 300)
+		VH_COUNT("histories_with_more_than_300_claims");
 	if (flags & F_FULL_NULL)
 		VH_COUNT("histories_with_claim_on_full_queue");
 	if (flags & F_RECV_BLOCKED_BY_UNSENT)
